@@ -2,10 +2,14 @@
 
 Values that the code under test computes with are proxies wrapping z3 terms:
 
-  SymReal(float)  payload NaN      z3 Real   (stated abstraction: exact reals stand for Python floats)
-  SymInt(int)     payload POISON   z3 Int    (integers that flow as *data*: passes isinstance(x, int))
-  SymIdx          (not an int)     z3 Int    (counts / indices / sizes: __index__ concretises by forking)
-  SymBool                          z3 Bool   (the only fork point is __bool__)
+  SymReal   z3 Real   (stated abstraction: exact reals stand for Python floats)
+  SymInt    z3 Int    (with optional bounds: __index__ concretises by forking, in increasing order)
+  SymBool   z3 Bool   (the only fork point is __bool__)
+
+Neither proxy subclasses float/int: CPython's C API reads the raw payload of such subclasses without calling any
+dunder (measured: `0.5 * <int subclass>`, `range(x)`, `float(x)`, `struct.pack`), which silently concretises.  As plain
+objects they are reachable from C only through __index__ (fork) or __float__ (loud error), and the library sees them
+as numbers through the `type`/`int`/`float`/`math` shims installed in the globals of every sc3 module (class shims).
 
 `explore(harness)` re-executes `harness(ctx)` once per feasible path, depth first over the recorded decision
 stack.  `ctx.prove(cond)` discharges an obligation for *all* values satisfying the path condition; a model is a
@@ -92,7 +96,7 @@ class Ctx:
             self.assume(v >= lo)
         if hi is not None:
             self.assume(v <= hi)
-        return SymInt(v)
+        return SymInt(v, lo if isinstance(lo, int) else None, hi if isinstance(hi, int) else None)
 
     def idx(self, name, lo, hi):
         """count/index/size: never an int subclass; concretised on demand over [lo, hi] in increasing order."""
@@ -103,7 +107,7 @@ class Ctx:
         self.vars[name] = v
         self.assume(v >= lo)
         self.assume(v <= hi)
-        return SymIdx(v, lo, hi)
+        return SymInt(v, lo, hi)
 
     def choose(self, name, n):
         """finite control choice 0..n-1 explored completely (no solver involved)."""
@@ -278,7 +282,7 @@ def _t(x):
     if isinstance(x, float):
         if x != x or x in (math.inf, -math.inf):
             return None
-        return z3.RealVal(Fraction(x))
+        return z3.RealVal(Fraction(repr(x)))   # decimal meaning of the literal (floats stand for reals)
     if isinstance(x, Fraction):
         return z3.RealVal(x)
     if z3.is_expr(x):
@@ -471,14 +475,18 @@ class _Num:
         return s._fdm(o, True, 'm')
 
     def __pow__(s, o, mod=None):
-        if isinstance(o, int) and not isinstance(o, (SymInt, bool)) and 0 <= o <= 8:
+        if isinstance(o, int) and not isinstance(o, bool) and 0 <= o <= 8:
             r = 1
             for _ in range(o):
                 r = r * s
             return r
+        if not isinstance(o, (int, float, SymInt, SymReal)):
+            return NotImplemented
         return uf_pow(s, o)
 
     def __rpow__(s, o):
+        if not isinstance(o, (int, float, SymInt, SymReal)):
+            return NotImplemented
         return uf_pow(o, s)
 
     def _cmp(s, o, op, f):
@@ -587,20 +595,25 @@ def rep_term(rep):
     return None
 
 
-class SymInt(_Num, int):
-    def __new__(cls, e):
-        o = int.__new__(cls, POISON)
-        o.e = e
-        return o
+class SymInt(_Num):
+    """Symbolic integer.  Deliberately NOT a subclass of int: C code can only reach it through __index__ (which
+    concretises by forking, over [lo, hi] in increasing order when bounds are known) and binary operators of real
+    ints/floats return NotImplemented so that the reflected dunders below run.  Library modules see it as an int
+    through the IntShim installed in their globals."""
+
+    def __init__(s, e, lo=None, hi=None):
+        s.e = e
+        s.lo = lo
+        s.hi = hi
 
     def __index__(s):
-        return s.concretize()
+        return s.concretize(s.lo, s.hi)
 
     def __int__(s):
-        return s
+        return s.concretize(s.lo, s.hi)
 
     def __float__(s):
-        return SymReal(z3.ToReal(s.e))
+        raise Inconclusive('C-level float() of a symbolic integer (missing shim)')
 
     def __trunc__(s):
         return s
@@ -624,7 +637,7 @@ class SymInt(_Num, int):
         return (s.e / (1 << j)) % 2
 
     def _const_bits(s, o):
-        if isinstance(o, int) and not isinstance(o, SymInt) and o >= 0 and bin(o).count('1') <= 40:
+        if isinstance(o, int) and o >= 0 and bin(o).count('1') <= 40:
             return [j for j in range(o.bit_length()) if o >> j & 1]
         return None
 
@@ -648,12 +661,12 @@ class SymInt(_Num, int):
         return s._bits(o, lambda a, b: a ^ b)
 
     def __lshift__(s, o):
-        if isinstance(o, int) and not isinstance(o, SymInt):
+        if isinstance(o, int):
             return wrap(s.e * (1 << o))
         return s._bits(o, lambda a, b: a << b)
 
     def __rshift__(s, o):
-        if isinstance(o, int) and not isinstance(o, SymInt):
+        if isinstance(o, int):
             return wrap(z3.ToInt(z3.ToReal(s.e) / (1 << o)))
         return s._bits(o, lambda a, b: a >> b)
 
@@ -666,40 +679,24 @@ class SymInt(_Num, int):
         raise TypeError('SymInt is not picklable')
 
 
-class SymIdx(_Num):
-    """Count / index / size.  Not an int: C code must go through __index__, which forks over [lo, hi]."""
+SymIdx = SymInt
 
-    def __init__(s, e, lo=None, hi=None):
+
+class SymReal(_Num):
+    """Symbolic real standing for a Python float.  NOT a subclass of float (C code would silently read a payload):
+    a C-level float() conversion is a loud modelling error."""
+
+    def __init__(s, e):
         s.e = e
-        s.lo = lo
-        s.hi = hi
-
-    def __index__(s):
-        return s.concretize(s.lo, s.hi)
-
-    __int__ = __index__
 
     def __float__(s):
-        return float(s.__index__())
-
-    def __hash__(s):
-        return hash(s.__index__())
-
-    def __repr__(s):
-        return f'SymIdx({s.e})'
-
-
-class SymReal(_Num, float):
-    def __new__(cls, e):
-        o = float.__new__(cls, float('nan'))
-        o.e = e
-        return o
-
-    def __float__(s):
-        return s
+        raise Inconclusive('C-level float() of a symbolic real (missing shim)')
 
     def __int__(s):
-        return SymInt(to_int_trunc(s.e))
+        raise Inconclusive('C-level int() of a symbolic real (missing shim)')
+
+    def __index__(s):
+        raise TypeError("'float' object cannot be interpreted as an integer")
 
     def __trunc__(s):
         return SymInt(to_int_trunc(s.e))
@@ -734,7 +731,7 @@ class SymReal(_Num, float):
 
 _R = z3.RealSort()
 UF = {n: z3.Function('uf_' + n, _R, _R) for n in
-      ('exp', 'log', 'log2', 'log10', 'sin', 'cos', 'tan', 'sqrt', 'exp2', 'tanh', 'atan')}
+      ('exp', 'log', 'log2', 'log10', 'sin', 'cos', 'tan', 'sqrt', 'exp2', 'exp10', 'tanh', 'atan')}
 UF2 = {n: z3.Function('uf_' + n, _R, _R, _R) for n in ('pow', 'atan2', 'hypot')}
 
 
@@ -745,7 +742,8 @@ def _real(t):
 def uf1(name, x):
     """Apply an uninterpreted kernel; instantiate the listed axioms at this argument."""
     if not is_sym(x):
-        return getattr(math, name)(x) if hasattr(math, name) else {'exp2': lambda v: 2.0 ** v}[name](x)
+        return getattr(math, name)(x) if hasattr(math, name) else {'exp2': lambda v: 2.0 ** v,
+                                                                     'exp10': lambda v: 10.0 ** v}[name](x)
     ctx = Ctx.cur
     a = _real(x.e)
     y = UF[name](a)
@@ -762,7 +760,11 @@ def uf1(name, x):
         ax = [z3.Implies(a > 0, UF['exp'](y) == a), z3.Implies(a == 1, y == 0),
               z3.Implies(a > 1, y > 0), z3.Implies(z3.And(a > 0, a < 1), y < 0)]
     elif name == 'log10':
-        ax = [z3.Implies(a == 1, y == 0), z3.Implies(a > 1, y > 0), z3.Implies(z3.And(a > 0, a < 1), y < 0)]
+        ax = [z3.Implies(a > 0, UF['exp10'](y) == a), z3.Implies(a == 1, y == 0), z3.Implies(a > 1, y > 0),
+              z3.Implies(z3.And(a > 0, a < 1), y < 0)]
+    elif name == 'exp10':
+        ax = [y > 0, z3.Implies(a == 0, y == 1), z3.Implies(a > 0, y > 1), z3.Implies(a < 0, y < 1),
+              UF['log10'](y) == a]
     elif name in ('sin', 'cos'):
         ax = [y >= -1, y <= 1]
         if name == 'sin':
@@ -899,7 +901,7 @@ import builtins as _bi
 
 class _FloatMeta(type):
     def __instancecheck__(cls, o):
-        return isinstance(o, _bi.float)
+        return isinstance(o, (_bi.float, SymReal))
 
     def __subclasscheck__(cls, c):
         return issubclass(c, _bi.float)
@@ -924,7 +926,7 @@ class FloatShim(metaclass=_FloatMeta):
 
 class _IntMeta(type):
     def __instancecheck__(cls, o):
-        return isinstance(o, _bi.int)
+        return isinstance(o, (_bi.int, SymInt))
 
     def __subclasscheck__(cls, c):
         return issubclass(c, _bi.int)
@@ -934,8 +936,8 @@ class _IntMeta(type):
             return SymInt(to_int_trunc(x.e))
         if isinstance(x, SymInt):
             return x
-        if isinstance(x, SymIdx):
-            return x.__index__()
+        if isinstance(x, SymBool):
+            return SymInt(z3.If(x.e, z3.IntVal(1), z3.IntVal(0)))
         return _bi.int(x, *a)
 
     def __eq__(cls, o):
@@ -1033,6 +1035,10 @@ class MathShim:
     @staticmethod
     def pow(x, y):
         if is_sym(x) or is_sym(y):
+            if not is_sym(x) and x == 2.0:
+                return uf1('exp2', y)
+            if not is_sym(x) and x == 10.0:
+                return uf1('exp10', y)
             return uf_pow(x, y)
         return math.pow(x, y)
 
@@ -1077,6 +1083,10 @@ class shims:
     _math = MathShim()
 
     def __init__(self, *modules, math=True, extra=None):
+        if not modules:
+            import sys
+            modules = tuple(m for n, m in sorted(sys.modules.items())
+                            if (n == 'sc3' or n.startswith('sc3.')) and m is not None)
         self.modules = modules
         self.math = math
         self.extra = extra or {}
